@@ -413,7 +413,7 @@ def gen(rng, tier):
         cases.append({"kind": "send", "type": typ, "user": user, "message": msg, "length": length})
     # histories: several calls on ONE client with varying length (None then explicit, explicit then None,
     # different explicit values), same and different targets; each call must behave as it does alone
-    for _ in range(100 if tier == "quick" else 1200):
+    for _ in range(100 if tier == "quick" else 800):
         users = rng.sample(["u", "#chan", "nick", "foo"], 2)
         calls = []
         for _ in range(rng.randrange(2, 5)):
@@ -436,7 +436,7 @@ def gen(rng, tier):
         cases.append(case)
     # lineRate set (rate-limited output queue) on a task.Clock: messages that split into several distinct lines,
     # several messages inside one rate interval, partial draining between calls
-    for _ in range(150 if tier == "quick" else 1500):
+    for _ in range(150 if tier == "quick" else 800):
         calls, ticks = [], []
         for _ in range(rng.randrange(1, 4)):
             typ = rng.choice(["PRIVMSG", "PRIVMSG", "NOTICE"])
